@@ -7,7 +7,7 @@
 namespace {
 
 enum K { NUMCHIPS, EMU, PCMRATE, DEVID, LFOEN, LFOFREQ, CHIPTYPE, VOLMODEL, ALLOC, SCALEMOD, FRBRIGHT, SOFTPAN, ARP, LOOPEN, LOOPCNT, HOOKSONLY, TEMPO,
-         HOOK_RAW, HOOK_NOTE, HOOK_DEBUG, HOOK_LS, HOOK_LE, RESET, BANK, MUSIC, TRACKOPT, CHANEN, SYSEX_DEV, GETBANK_BAD, PLAYPROBE };
+         HOOK_RAW, HOOK_NOTE, HOOK_DEBUG, HOOK_LS, HOOK_LE, RESET, BANK, MUSIC, TRACKOPT, CHANEN, SYSEX_DEV, GETBANK_BAD, PLAYPROBE, AUDIO };
 struct Op { K k; long a; long b; std::string name; };
 
 static std::vector<uint8_t> g_bankA, g_bankB, g_badbank, g_song, g_badsong, g_trunc, g_cmf, g_imf, g_rsxx;
@@ -69,6 +69,8 @@ struct C18Model : mcx::Model {
         add(SYSEX_DEV, 0, 0, "sysex master volume -> device 0"); add(SYSEX_DEV, 5, 0, "sysex master volume -> device 5");
         add(GETBANK_BAD, 128, 0, "getBank(lsb=128)"); add(GETBANK_BAD, 0, 2, "getBank(percussive=2)");
         add(PLAYPROBE, 0, 0, "probe: play the song for 1 s (hooks must fire)");
+        // rendering audio is not a setter: whatever sizes are asked for (30 samples leave a fractional-sample carry close to one frame behind), every setting reads as before
+        add(AUDIO, 30, 0, "generate(30)"); add(AUDIO, 2052, 0, "generate(2052)");
     }
     size_t num_ops() const override { return ops.size(); }
     std::string op_name(size_t i) const override { return ops[i].name; }
@@ -185,6 +187,7 @@ struct C18Model : mcx::Model {
             if((rc != 0) != want) { v.fail("C18/setting-lost/deviceId/sysex", "master volume addressed to device " + std::to_string(o.a) + " was " + (rc ? "accepted" : "rejected") + ", device id set to " + std::to_string(R.devid)); return; }
             break; }
         case GETBANK_BAD: { OPN2_BankId id; id.percussive = (OPN2_UInt8)o.b; id.msb = 0; id.lsb = (OPN2_UInt8)o.a; OPN2_Bank bk; must_fail(opn2_getBank(d, &id, OPNMIDI_Bank_Create, &bk), "bank id out of range"); break; }
+        case AUDIO: { static short abuf[4096]; int got = opn2_generate(d, (int)o.a, abuf); if(got != (int)o.a) { v.fail("C18/generate-return", "opn2_generate(" + std::to_string(o.a) + ") returned " + std::to_string(got)); return; } break; }
         case PLAYPROBE: { if(!R.song) break; memset(g_hook_calls, 0, sizeof g_hook_calls); opn2_positionRewind(d); short buf[4096]; for(int k = 0; k < 22; k++) opn2_play(d, 4096, buf);
             if(R.hook[0] && g_hook_calls[0] == 0) { v.fail("C18/hook-not-firing/raw", "raw event hook registered but not called during playback"); return; }
             // the probe song has one note per track: track 0 on channel 0, track 1 on channel 3, track 2 on channel 9; a note reaches the synthesizer (and the note hook) only from an enabled/solo track on an enabled channel
@@ -207,7 +210,8 @@ struct C18Model : mcx::Model {
         if(expect_error_text) { const char *e = opn2_errorInfo(d); if(!e || !*e) { v.fail("C18/empty-error-text/" + opk, "rejected file left an empty error text"); return; } }
         check_getters(I, v, opk);
     }
-    void key(void *p, vu::Ser &s) override { Inst &I = *(Inst *)p; std::string snap; full_snapshot(I, snap); s.str(snap); I.r.ser(s); }
+    // (the fractional-sample carry of the audio calls is not a setting and is not compared around failing calls, but it decides how the next audio call splits its periods: it is part of the state identity)
+    void key(void *p, vu::Ser &s) override { Inst &I = *(Inst *)p; std::string snap; full_snapshot(I, snap); s.str(snap); I.r.ser(s); s.f64(I.in.play()->m_setup.carry); }
     double budget_s(size_t) const override { return 20.0; }
 };
 
